@@ -778,8 +778,8 @@ def channels(ctx):
         return
     rng = ctx.rng("store_hist")
     t0 = time.time()
-    budget = 75 if not ctx.thorough else 700      # safety net only: the counts below are what normally ends the loop
-    n_hist = ctx.scale(50, 150)
+    budget = 75 if not ctx.thorough else 380      # safety net only: the counts below are what normally ends the loop
+    n_hist = ctx.scale(50, 120)
     max_len = 12 if not ctx.thorough else 60
     hs = []
     for ops in corpus_histories():
@@ -917,6 +917,14 @@ def search(ctx, disagreements):
         f = first_failure(w, mini)
         if f:
             return failure_record(w, mini, fkey(f[1]), f[1])
+    # the fixed histories (corpus, then grids) before anything random
+    for ops in corpus_histories() + grid_histories(ctx.thorough):
+        if time.time() - t0 > 2 * budget:
+            break
+        f = first_failure(w, ops)
+        if f:
+            return failure_record(w, ops, fkey(f[1]), f[1])
+    t0 = time.time()
     while time.time() - t0 < budget:
         h = run_history(w, None, gen=(rng, 14))
         for i, msgs in h["failures"]:
